@@ -8,6 +8,7 @@ import (
 	"github.com/pkg/errors"
 	"github.com/ysugimoto/falco/v2/interpreter/assign"
 	"github.com/ysugimoto/falco/v2/interpreter/context"
+	"github.com/ysugimoto/falco/v2/interpreter/function/shared"
 	"github.com/ysugimoto/falco/v2/interpreter/value"
 	pcre "go.elara.ws/pcre"
 )
@@ -729,7 +730,12 @@ func Regex(ctx *context.Context, left, right value.Value) (value.Value, error) {
 					fmt.Errorf("failed to compile regular expression from string %s", rv.Value),
 				)
 			}
-			if matches := re.FindStringSubmatch(lv.Value); len(matches) > 0 {
+			var matches []string
+			if err := shared.PcreMatch(func() { matches = re.FindStringSubmatch(lv.Value) }); err != nil {
+				ctx.FastlyError = &value.String{Value: "EREGRECUR"}
+				return value.Null, errors.WithStack(err)
+			}
+			if len(matches) > 0 {
 				// Important: regex matched group variables are reset if matching is succeeded
 				// see: https://fiddle.fastly.dev/fiddle/3e5320ef
 				ctx.RegexMatchedValues = make(map[string]*value.String)
@@ -751,7 +757,12 @@ func Regex(ctx *context.Context, left, right value.Value) (value.Value, error) {
 					fmt.Errorf("failed to compile regular expression from REGEX %s", rv.Value),
 				)
 			}
-			if matches := re.FindStringSubmatch(lv.Value); len(matches) > 0 {
+			var matches []string
+			if err := shared.PcreMatch(func() { matches = re.FindStringSubmatch(lv.Value) }); err != nil {
+				ctx.FastlyError = &value.String{Value: "EREGRECUR"}
+				return value.Null, errors.WithStack(err)
+			}
+			if len(matches) > 0 {
 				ctx.RegexMatchedValues = make(map[string]*value.String)
 				for j, m := range matches {
 					ctx.RegexMatchedValues[fmt.Sprint(j)] = &value.String{Value: m}
